@@ -447,4 +447,24 @@ Section ReplyObj.
 
   Definition rops_wire (ops : list rop) : bytes :=
     List.concat (map wire_of (rops_sent fresh_reply ops)).
+
+  (* IO.send_reply(reply) begins with reply.code.encode('ascii') and
+     reply.message.encode('utf-8'): a code point outside ASCII in the code, or a
+     surrogate anywhere in the text, raises UnicodeEncodeError BEFORE a single byte is put
+     into the send buffer.  None = that exception; nothing was written. *)
+  Definition can_encode (r : reply) : bool :=
+    forallb (fun c => c <? 128) (r_code r) && forallb valid_cp (get_message r).
+  Definition send_chk (r : reply) : option bytes :=
+    if can_encode r then Some (wire_of r) else None.
+
+  (* the send buffer of ONE IO after all the operations: a failed send adds nothing *)
+  Fixpoint rops_out (r : reply) (ops : list rop) : bytes :=
+    match ops with
+    | [] => []
+    | o :: ops' =>
+        (match o with
+         | ROSend => match send_chk r with Some w => w | None => [] end
+         | _ => []
+         end) ++ rops_out (rop_step r o) ops'
+    end.
 End ReplyObj.
